@@ -41,8 +41,13 @@ class Impl:
                 log.append('makeconn')
                 Protocol.makeConnection(self, transport)
 
-            def dataReceived(self, data):
+            def dataReceived(self2, data):
                 log.append('data ' + hx(data))
+                if self.armed is not None:
+                    # the application answers, the peer's next bytes arrive before this call returns
+                    nested, self.armed = self.armed, None
+                    self.consumed = nested
+                    self.proto.dataReceived(bytes.fromhex(nested[1]) if nested[1] != '-' else b'')
 
             def connectionLost(self, reason=None):
                 log.append('applost')
@@ -63,6 +68,20 @@ class Impl:
         self.tr.write = write
         self.tr.loseConnection = lose
         self.dead = False
+        self.armed = None
+        self.consumed = None
+
+    def late(self):
+        """ask for the outcome again, after everything: what a caller that comes late is told"""
+        keep, self.log = self.log, []
+        try:
+            d = self.proto.when_done()
+            d.addCallbacks(self.ok, self.bad)
+            res = list(self.log)
+        except Exception as e:
+            res = ['exc ' + type(e).__name__]
+        self.log = keep
+        return res
 
     def watch(self):
         d = self.proto.when_done()
@@ -108,7 +127,7 @@ class Impl:
             self.log.append('done fail-other ' + type(v).__name__)
         return None
 
-    def do(self, op):
+    def do(self, op, nxt=None):
         start = len(self.log)
         if self.dead:
             return []
@@ -116,8 +135,12 @@ class Impl:
             if op[0] == 'connect':
                 self.proto.makeConnection(self.tr)
                 self.watch()
-            elif op[0] == 'feed':
+            elif op[0] == 'refeed' and self.consumed is op:
+                self.consumed = None          # delivered from inside the application's dataReceived
+            elif op[0] in ('feed', 'refeed'):
+                self.armed = nxt if (nxt is not None and nxt[0] == 'refeed') else None
                 self.proto.dataReceived(bytes.fromhex(op[1]) if op[1] != '-' else b'')
+                self.armed = None
             elif op[0] == 'lost':
                 from twisted.python.failure import Failure
                 from twisted.internet.error import ConnectionLost
